@@ -106,8 +106,17 @@ Definition cls (c : case) : nat :=
 
 Definition run := run_cases agrees holds cls.
 
+(* diagnosis: does the observed outcome equal what a provider taking wall-clock readings would produce?
+   (issue clock, expiry clock) of the first variant other than the code's own that matches *)
+Definition clock_diagnosis (c : case) : option (reading * reading) :=
+  match filter (fun p => outcome_eqb (create_read (fst p) (snd p) (c_in c)) (c_out c))
+               [(UtcReading, WallReading); (WallReading, UtcReading); (WallReading, WallReading)] with
+  | p :: _ => if outcome_eqb (create (c_in c)) (c_out c) then None else Some p
+  | [] => None
+  end.
+
 Definition explain (c : case) :=
-  (create (c_in c), match c_out c with Issued r => (scope_b (c_in c) r, nameid_ok_b (c_in c) r,
+  (create (c_in c), zone (c_in c), clock_diagnosis c, match c_out c with Issued r => (scope_b (c_in c) r, nameid_ok_b (c_in c) r,
                                                     signed_as_demanded_b (c_in c) r) | Error e => (refusal_ok_b (c_in c) e, true, true) end,
    match c_sp c, c_out c with Some (s, so), Issued r => Some (sp_accepts s r, e2e_b (c_in c) s r so) | _, _ => None end).
 
@@ -123,12 +132,12 @@ Definition mk_args ident irt dest sp nip nameid authn iss sr sa salg dalg pol fa
   {| a_identity := ident; a_in_response_to := irt; a_destination := dest; a_sp := sp; a_nidpolicy := nip;
      a_name_id := nameid; a_authn := authn; a_issuer := iss; a_sign_response := sr; a_sign_assertion := sa;
      a_sign_alg := salg; a_digest_alg := dalg; a_policy := pol; a_farg := fa |}.
-Definition mk_in c a r st n : input := {| cfg := c; arg := a; ra := r; stored := st; now := n |}.
+Definition mk_in c a r st n z : input := {| cfg := c; arg := a; ra := r; stored := st; now := n; zone := z |}.
 Definition mk_issued ri rirt rdest rii ii aud m rec irt nb nc ns nid src authn av sr sa : issued :=
   {| r_issuer := ri; r_in_response_to := rirt; r_destination := rdest; r_issue_instant := rii; i_issuer := ii;
      i_audiences := aud; i_method := m; i_recipient := rec; i_irt := irt; i_not_before := nb; i_nooa_cond := nc;
      i_nooa_sc := ns; i_nameid := nid; i_nameid_src := src; i_authn := authn; i_attributes := av;
      s_response := sr; s_assertion := sa |}.
-Definition mk_sp me idp specs b wr wa wor atd au out n : spside :=
+Definition mk_sp me idp specs b wr wa wor atd au out n z : spside :=
   {| sp_me := me; sp_idp := idp; sp_specs := specs; sp_binding := b; sp_wr := wr; sp_wa := wa; sp_wor := wor;
-     sp_atd := atd; sp_allow_unsolicited := au; sp_outstanding := out; sp_now := n |}.
+     sp_atd := atd; sp_allow_unsolicited := au; sp_outstanding := out; sp_now := n; sp_zone := z |}.
